@@ -127,6 +127,15 @@ def inject(source, counter, writer):
                 counter.step()
                 return _orig(self, outfile, rows)
             patch(png.Writer, 'write', write)
+        elif source == 'tempfile-create':
+            # the staging file cannot be created (no usable temporary directory, no space left)
+            import tempfile as _tf
+            orig = _tf.TemporaryFile
+
+            def temporary_file(*a, _orig=orig, **k):
+                counter.step()
+                return _orig(*a, **k)
+            patch(_tf, 'TemporaryFile', temporary_file)
         elif source == 'stream-write':
             for key in ('P8', 'PNG'):
                 cls = m[key]
@@ -168,7 +177,7 @@ CLI_REWRITERS = ('luafmt', 'luamin', 'writep8')
 
 
 def sources_for(fmt):
-    s = ['lua-writer', 'sanity', 'stream-write']
+    s = ['lua-writer', 'sanity', 'stream-write', 'tempfile-create']
     s += ['section:' + n for n in ('gfx', 'gff', 'map', 'sfx', 'music')]
     if fmt == 'p8':
         s.append('section:label')
